@@ -111,6 +111,18 @@ def guarded_fresh(P, f, site, passes, killers):
     return True
 
 
+def const_relation(atom, pol, is_term, k):
+    """what one edge says about `term == k`: True (equal), False (different) or None; understands the if-form (cmp eq/ne) and the
+    switch-form (case edge, default edge listing the cases it excludes)"""
+    if atom[0] == "cmp" and is_term(atom[2]) and atom[3] == ("const", k) and atom[1] in ("eq", "ne"):
+        return (atom[1] == "eq") == bool(pol)
+    if atom[0] == "switch" and is_term(atom[1]):
+        return True if atom[2] == k else False
+    if atom[0] == "switch_default" and is_term(atom[1]) and k in atom[2]:
+        return False
+    return None
+
+
 def guards_of(P, f, block):
     """all (atom, pol) such that every path to block passes an edge carrying it"""
     g = P.edge_graph(f)
